@@ -53,6 +53,15 @@ RULE_SCHED = ("each run is one seeded schedule+workload drawn from the choice ta
               "fired faults, fired events) among non-trivial runs")
 
 CHECKS = {
+    "C09": {
+        "claim": "two-stage per-operation fault sweep made possible by deterministic replay: each scenario (a seed of the C06/C07 workload) is first run fault-free to count its transport operations and steps, then re-run once for every NewMessage / send / receive index with each fault kind (error on NewMessage, error on send, stalled send, receive error, EOF) and, at up to 60 evenly spaced steps, with Close, Close twice followed by new operations, and cancellation of every outstanding call; every run must finish all its operations, Close must return, no goroutine started by the connection may survive, no mutex nor the sender lock may stay held, nothing may panic",
+        "engine": "rpcsim", "level": "fault_enumeration",
+        "budget": {"quick": 40, "thorough": 1200},
+        "rule": "each evaluation is one base scenario (seed) together with its complete sweep: every transport-operation index x fault kind, and sampled steps x {close, close twice, cancel}; non-trivial = at least one fault fired; distinct = distinct hashes of the base schedule combined with the schedules of all its faulted re-runs; coverage.probes.sweep_cases counts the individual faulted runs",
+        "faults": ["newmsg_err", "send_err", "send_stall", "recv_err", "recv_eof", "close", "close_again", "cancel"],
+        "params": {"mode": "sweep"},
+        "coverage_extra": {"explanation": "exhaustive is per scenario: all transport operation indices of the fault-free run are swept (probes.sweep_cases / sweep_scenarios); scenarios themselves are sampled"},
+    },
     "C07": {
         "claim": "same simulated sessions as C06 biased to capability traffic (the same capability sent repeatedly, partial Releases, Finish with releaseResultCaps before or after the Return, Returns with releaseParamCaps, local AddRef/Release of imports racing with newly arriving references); conservation is checked from the wire history: peer reference counts never go negative, a Release never exceeds the references actually delivered, application capabilities are not released while the peer holds a reference and the connection is open, after an orderly wind-down every table is empty and every capability released, and after Close each capability has been released exactly once",
         "engine": "rpcsim", "level": "exploration",
